@@ -151,30 +151,64 @@ is now written as valid JSON -/
 example : Spec.accepts (prettyWrite { width := 80, maxDepth := 9, align := true } id
     (.arr [.arr [.obj [([97], .int 1)]], .arr [.arr [.arr [.int 5]]]])) = true := by decide +kernel
 
-/-- the partial theorem for `pretty.JSON` (full statement: `C04_pretty_full`, false). It has the
-property as stated — for every Width, MaxDepth, HTML-safe setting, OmitNil/OmitEmpty and iteration
-order the text is ONE valid JSON document whose reading is the tree (members in ascending key order)
-minus exactly the members OmitNil / OmitEmpty name — whenever no alignment TABLE is used: Align is
-off, or Align is on (keys of every map are then padded to a common column) and no array of the tree
-has two or more members that are all arrays or all objects (`noTable`). What is excluded is exactly
-the code path of `checkAlign` / `alignArray` / `alignMap`, where the known finding lives. -/
-theorem C04_pretty_align_partial (p : POpts) (ord : Kvs → Kvs) (hord : IsOrder ord) (v : JV) (hv : okW v)
-    (hnt : p.align = true → noTable v) :
+/-- the partial theorem for `pretty.JSON` WITH alignment tables (full statement: `C04_pretty_full`,
+false). For every Width, MaxDepth, HTML-safe setting, OmitNil/OmitEmpty and iteration order the text
+is ONE valid JSON document whose reading is the tree (members in ascending key order) minus exactly
+the members OmitNil / OmitEmpty name, whenever Align is off or every alignment table of the tree is
+a table of ARRAYS (`tablesArr`: an array with two or more members has not only objects as members,
+and if it has only arrays they contain no object at any depth). This covers `checkAlign`,
+`genTables`, `updateArrayTable` and `alignArray` (columns matched by position, number cells padded
+on the left, string cells on the right, every padding within the `spaces` constant because the
+table fits the width). What is excluded is exactly `updateMapTable` / `alignMap` — tables with
+object rows or object cells — where the known finding C04-pretty-align-comma lives. -/
+theorem C04_pretty_align_table_partial (p : POpts) (ord : Kvs → Kvs) (hord : IsOrder ord) (v : JV) (hv : okW v)
+    (hnt : p.align = true → tablesArr v) :
     Spec.parseDoc (prettyWrite p ord v) = .one (norm (ojOptsOf p) ord v) := by
   rw [prettyWrite_eq_ptext p ord hord v hnt]
   obtain ⟨b, t, hb, hsb⟩ := ptext_head (pwOf p ord v) ord (depth v) v 0 false hv
   have hp := parse_ptext jMap_safe pretty_seps_ws (pwOf p ord v) ord hord (depth v + 1) v 0 false
-    ((ptext (pwOf p ord v) ord (depth v + 1) v 0 false).length + 1) [] hv (Nat.lt_succ_self _)
-    (Nat.lt_succ_self _) rfl
+    ((ptext (pwOf p ord v) ord (depth v + 1) v 0 false).length + 1) [] hv (by simpa [pwOf_o] using hnt)
+    (by rw [pwOf_fuel]; omega) (Nat.lt_succ_self _) (Nat.lt_succ_self _) rfl
   simp only [List.append_nil, pwOf_o] at hp
   rw [hb] at hp ⊢
   exact parseDoc_of_pValue b t _ (startByte_ne_bom b hsb) (startByte_facts b hsb).1 hp
+
+/-- in particular when no array of the tree is a table at all (`noTable`; keys of maps are still padded) -/
+theorem C04_pretty_align_partial (p : POpts) (ord : Kvs → Kvs) (hord : IsOrder ord) (v : JV) (hv : okW v)
+    (hnt : p.align = true → noTable v) :
+    Spec.parseDoc (prettyWrite p ord v) = .one (norm (ojOptsOf p) ord v) :=
+  C04_pretty_align_table_partial p ord hord v hv
+    (fun h => tablesArr_of_noTable (depth v + 1) v (Nat.lt_succ_self _) (hnt h))
 
 /-- in particular, excluding exactly `Align`, `pretty.JSON` has the property for EVERY tree -/
 theorem C04_pretty_noalign (p : POpts) (ha : p.align = false) (ord : Kvs → Kvs) (hord : IsOrder ord)
     (v : JV) (hv : okW v) :
     Spec.parseDoc (prettyWrite p ord v) = .one (norm (ojOptsOf p) ord v) :=
-  C04_pretty_align_partial p ord hord v hv (by simp [ha])
+  C04_pretty_align_table_partial p ord hord v hv (by simp [ha])
+
+/-- `{"t":[[1,"a",[2.5]],[100,"long"],[]],"k":{"x":null}}` is a tree whose only table is a table of arrays … -/
+example : tablesArr (.obj [([116], .arr [.arr [.int 1, .str [97], .arr [.flt [50, 46, 53]]],
+    .arr [.int 100, .str [108, 111, 110, 103]], .arr []]), ([107], .obj [([120], .null)])]) := by
+  simp only [tablesArr, tablesArrK, tablesArrL, arrOnlyL, arrOnly, and_true]
+  decide
+
+/-- … and with Align its rows are written in columns:
+```
+{
+  "k": {"x": null},
+  "t": [
+    [  1, "a"   , [2.5]],
+    [100, "long"],
+    []
+  ]
+}
+``` -/
+example : prettyWrite { align := true } id (.obj [([116], .arr [.arr [.int 1, .str [97], .arr [.flt [50, 46, 53]]],
+    .arr [.int 100, .str [108, 111, 110, 103]], .arr []]), ([107], .obj [([120], .null)])]) =
+    [123, 10, 32, 32, 34, 107, 34, 58, 32, 123, 34, 120, 34, 58, 32, 110, 117, 108, 108, 125, 44, 10, 32, 32, 34, 116, 34,
+     58, 32, 91, 10, 32, 32, 32, 32, 91, 32, 32, 49, 44, 32, 34, 97, 34, 32, 32, 32, 44, 32, 91, 50, 46, 53, 93, 93, 44,
+     10, 32, 32, 32, 32, 91, 49, 48, 48, 44, 32, 34, 108, 111, 110, 103, 34, 93, 44, 10, 32, 32, 32, 32, 91, 93, 10, 32,
+     32, 93, 10, 125] := by decide +kernel
 
 /-- `{"longer key":1,"k":[1,"a",{"x":null}],"m":[[1,2]]}` is a tree without tables … -/
 example : noTable (.obj [([108, 111, 110, 103, 101, 114, 32, 107, 101, 121], .int 1),
@@ -201,10 +235,10 @@ example : prettyWrite { omitNil := true } id
     (.obj [([97], .arr []), ([98], .obj [([99], .null)]), ([100], .null)]) =
     [123, 34, 97, 34, 58, 32, 91, 93, 44, 32, 34, 98, 34, 58, 32, 123, 125, 125] := by decide +kernel
 
-/-- streaming: when no table is aligned the chunks `pretty.WriteJSON` hands over are, joined, the
+/-- streaming: when the only tables aligned are tables of arrays the chunks `pretty.WriteJSON` hands over are, joined, the
 in-memory text, for every WriteLimit -/
 theorem C04_pretty_stream (p : POpts) (ord : Kvs → Kvs) (hord : IsOrder ord) (limit : Nat) (v : JV)
-    (hnt : p.align = true → noTable v) :
+    (hnt : p.align = true → tablesArr v) :
     (prettyWriteTo p ord limit v).flatten = prettyWrite p ord v := by
   rw [prettyWriteTo_flatten p ord hord limit v hnt, prettyWrite_eq_ptext p ord hord v hnt]
 
